@@ -119,6 +119,10 @@ func (runInfo *runInfoStruct) runSingleStmt() {
 			return
 		}
 		runInfo.err = newStringError(stmt, fmt.Sprint(runInfo.rv.Interface()))
+		if runInfo.err == nil {
+			// a thrown value whose text is empty is thrown all the same
+			runInfo.err = &Error{Pos: stmt.Position()}
+		}
 
 	// ModuleStmt
 	case *ast.ModuleStmt:
